@@ -10,7 +10,7 @@ line-protocol driver for C12.  Byte strings travel as lower-case hex (`-` = empt
                                             the answer is the constant `done` (no model comparison for this stream)
   opt <pre> <arg>…                          readOptions, argv[1..]
   nopt <required> <allowMore> <ow> <pre> <nkw> <kw>… <arg>…      readNamedOptions
-  get <T> <text>                            pt["k"]=text; pt.get<T>("k")
+  get <T> <text>                            pt["k"]=text; pt.get<T>("k")   (`noclaim` for a negative literal with an unsigned T)
   shw <int>                                 decimal text of a built-in integer
   tq <key>=<value>,… : probe;probe;…        tree built with operator[], then hk|hs|gs|sk|skf <key>, gd|gi <key> <default>
 -/
@@ -104,7 +104,12 @@ def splitSuffixNat (s : String) : Option (String × Nat) :=
   let suf := cs.dropWhile (fun c => !c.isDigit)
   if suf.isEmpty then none else (String.ofList suf).toNat?.map fun n => (String.ofList pre, n)
 
+/-- a negative literal for an unsigned target: not claimed, not compared (the harness prints the same token) -/
+def noClaim (ty : String) (text : Str) : Bool :=
+  (ty == "uint" || ty == "ulong" || ty == "ushort" || ty == "vu" || ty.startsWith "au") && text.contains '-'
+
 def getOp (ty : String) (text : Str) : String :=
+  if noClaim ty text then "noclaim" else
   match intTy? ty with
   | some t => showOpt toString (parseInt t text)
   | none =>
